@@ -438,7 +438,7 @@ class Check:
         if n_ob == 0:
             engine_faults.append("zero obligations generated")
             print(f"CHECKER-FAULT property={self.prop} zero obligations generated")
-        if self.instances_declared and self.instances_generated != self.instances_declared:
+        if self.instances_declared and self.instances_generated != self.instances_declared and not undecided:
             engine_faults.append(
                 f"contract instances generated {self.instances_generated} != declared {self.instances_declared}")
             print(f"CHECKER-FAULT property={self.prop} {engine_faults[-1]}")
